@@ -11,8 +11,9 @@
     model returns `some`.
   * `AutomatonBuilder<T>` is modelled for `T = Nat`; `id_map : HashMap<T, usize>` is an association
     list (only `get`/`insert` of an absent key are used, never iteration).
-  * `build`/`build_unchecked` take `&mut self` and clean the states up in place; `build` here
-    returns the result only, `buildMut` the builder as the call leaves it.
+  * `build`/`build_unchecked` take `&mut self` but work on a clone of every state in construction
+    (commit 114d68f), so the builder is unchanged by them: they are pure functions of the builder
+    state.  The as-found in-place variant is `SmtModel/Legacy/BuilderBuild.lean`.
   * `State::remap_nodes` moves `successor`/`classes` out of the old state (`mem::take`); the model is
     non-destructive.  Both callers pass a duplicate-free `old_id`, so no old state is visited twice
     (with duplicates the dev profile stops at `debug_assert!(new_states[i].id == i)`, modelled).
@@ -406,15 +407,6 @@ def buildState (i : Nat) (s : StateInConstruction) : Option (Except Err State) :
           some (.ok { id := i, isFinal := s'.isFinal, classes := p, successor := succ,
                       defaultSuccessor := s'.defaultSuccessor })
 
-/-- the state as `build` leaves it in the builder (cleanup happens after the three checks) -/
-def buildStateMut (s : StateInConstruction) : StateInConstruction :=
-  match s.makePartition with
-  | .error _ => s
-  | .ok given =>
-    if s.defaultSuccessor.isSome && given.emptyComplement then s
-    else if s.defaultSuccessor.isNone && !given.emptyComplement then s
-    else s.cleanup
-
 /-- the body of the loop of `build_unchecked`: `none` = panic (`unwrap` of the partition error,
     or `make_successor`) -/
 def buildStateUnchecked (i : Nat) (s : StateInConstruction) : Option State :=
@@ -506,16 +498,6 @@ def build (b : Builder) : Option (Except Err Automaton) :=
   | some (.error e) => some (.error e)
   | some (.ok (sts, nf)) =>
     some (.ok { numStates := b.size, numFinalStates := nf, initialState := 0, states := sts })
-
-/-- the states of the builder after `build()` returned (states up to the failing one are cleaned up) -/
-def buildMutLoop : Nat → List StateInConstruction → List StateInConstruction
-  | _, [] => []
-  | i, s :: rest =>
-    match s.buildState i with
-    | some (.ok _) => s.buildStateMut :: buildMutLoop (i + 1) rest
-    | _ => s.buildStateMut :: rest
-
-def buildMut (b : Builder) : Builder := { b with states := buildMutLoop 0 b.states }
 
 /-- the loop of `build_unchecked` -/
 def buildUncheckedLoop : Nat → List StateInConstruction → Nat → Option (List State × Nat)
